@@ -1,5 +1,5 @@
 SPECIFICATION Spec
 CONSTANTS N = 5
-  ALPHABET = {"SP", "TAB", "NL", "CR", "a", "@"}
+  ALPHABET = {"SP", "TAB", "NL", "CR", "a", "@", "NBSP"}
 INVARIANT Emit
 CHECK_DEADLOCK FALSE
